@@ -189,6 +189,9 @@ func (s *Server) DidChange(ctx context.Context, params *protocol.DidChangeTextDo
 			}
 		}
 		s.documents.Store(params.TextDocument.URI, content)
+		// the include resolution of the superseded version must not answer
+		// requests about the new text; the analysis started below replaces it
+		s.resolved.Delete(params.TextDocument.URI)
 		if s.workspace != nil {
 			if path := uriToPath(params.TextDocument.URI); path != "" {
 				s.workspace.UpdateFile(path, content)
@@ -207,6 +210,7 @@ func isFullChange(r protocol.Range) bool {
 
 func (s *Server) DidClose(ctx context.Context, params *protocol.DidCloseTextDocumentParams) error {
 	s.documents.Delete(params.TextDocument.URI)
+	s.resolved.Delete(params.TextDocument.URI)
 	tokenCache.delete(params.TextDocument.URI)
 	return nil
 }
@@ -246,7 +250,14 @@ func (s *Server) publishDiagnostics(ctx context.Context, docURI protocol.Documen
 		return
 	}
 	resolved, loadErrors := s.loader.LoadFromContent(path, content)
+	// only the analysis of the document's current content may record its result
+	s.publishMu.Lock()
+	if current, ok := s.GetDocument(docURI); !ok || current != content {
+		s.publishMu.Unlock()
+		return
+	}
 	s.resolved.Store(docURI, resolved)
+	s.publishMu.Unlock()
 
 	diagnostics := s.analyze(content)
 
